@@ -211,7 +211,7 @@ func checkC20(e *RunEnv) *CheckResult {
 		{Op: "run", Args: []string{"config", ".k", "v"}, Invalid: true}, {Op: "run", Args: []string{"config", "s.", "v"}, Invalid: true}}
 	spec := &Spec{
 		Seeds: []Seed{{"init", []Step{Run("init")}}},
-		Depth: e.depth(4, 5),
+		Depth: e.depth(4, 6),
 		Steps: func(n *Node) []Step {
 			var steps []Step
 			steps = append(steps, bfsSteps...)
